@@ -5,6 +5,7 @@ package main
 // one long-lived solver process.
 
 import (
+	"os"
 	"bufio"
 	"fmt"
 	"io"
@@ -24,6 +25,7 @@ type Sym struct {
 	name string // for inputs
 	cval uint64
 	sent bool
+	proxied bool // a Boolean constant p<id> equal to this literal has been declared (unsat-assumption names)
 }
 
 type Solver struct {
@@ -40,6 +42,11 @@ type Solver struct {
 
 	// caches
 	unsatCache map[string]bool
+	// unsat cores (the subset of assumptions the solver needed), indexed by their newest literal: a later
+	// query that contains a whole core is unsat without asking the solver
+	useCores  bool
+	cores     map[int][][]int
+	CoreHits  int
 	lastModel  map[int]uint64 // input id -> value, from the last sat answer
 	haveModel  bool
 
@@ -86,7 +93,7 @@ type solverFailure struct{ msg string }
 
 func NewSolver(timeoutMs int) *Solver {
 	s := &Solver{bin: "z3", argv: []string{"-in"}, terms: map[string]*Sym{}, byName: map[string]*Sym{},
-		unsatCache: map[string]bool{}, timeout: timeoutMs}
+		unsatCache: map[string]bool{}, timeout: timeoutMs, useCores: os.Getenv("VERIF_NOCORES") == "", cores: map[int][][]int{}}
 	s.start()
 	return s
 }
@@ -100,11 +107,15 @@ func (s *Solver) start() {
 	}
 	s.cmd, s.in, s.out = cmd, in, bufio.NewReaderSize(out, 1<<16)
 	fmt.Fprintln(in, "(set-option :print-success false)")
+	if s.useCores {
+		fmt.Fprintln(in, "(set-option :produce-unsat-assumptions true)")
+	}
 	if s.timeout > 0 {
 		fmt.Fprintf(in, "(set-option :timeout %d)\n", s.timeout)
 	}
 	for _, t := range s.all {
 		t.sent = false
+		t.proxied = false
 	}
 }
 
@@ -115,6 +126,7 @@ func (s *Solver) Restart() {
 	s.byName = map[string]*Sym{}
 	s.all, s.inputs = nil, nil
 	s.unsatCache = map[string]bool{}
+	s.cores = map[int][][]int{}
 	s.lastModel, s.haveModel = nil, false
 	s.start()
 }
@@ -601,12 +613,48 @@ func (s *Solver) Check(lits []*Sym) bool {
 		s.CacheHits++
 		return false
 	}
+	if s.useCores && len(s.cores) > 0 {
+		var have map[int]bool
+		for _, l := range eff {
+			cs := s.cores[l.id]
+			if len(cs) == 0 {
+				continue
+			}
+			if have == nil {
+				have = make(map[int]bool, len(eff))
+				for _, x := range eff {
+					have[x.id] = true
+				}
+			}
+		nextCore:
+			for _, c := range cs {
+				for _, id := range c {
+					if !have[id] {
+						continue nextCore
+					}
+				}
+				s.CoreHits++
+				s.CacheHits++
+				s.unsatCache[key] = true
+				return false
+			}
+		}
+	}
 	start := time.Now()
 	var sb strings.Builder
 	sb.WriteString("(check-sat-assuming (")
 	for _, l := range eff {
 		s.send(l)
-		sb.WriteString(l.ref())
+		if s.useCores {
+			// assumptions are named constants so that the solver can report which of them it used
+			if !l.proxied {
+				fmt.Fprintf(s.in, "(declare-const p%d Bool)\n(assert (= p%d %s))\n", l.id, l.id, l.ref())
+				l.proxied = true
+			}
+			sb.WriteString("p" + strconv.Itoa(l.id))
+		} else {
+			sb.WriteString(l.ref())
+		}
 		sb.WriteString(" ")
 	}
 	sb.WriteString("))\n")
@@ -622,6 +670,9 @@ func (s *Solver) Check(lits []*Sym) bool {
 	case "unsat":
 		s.Unsat++
 		s.unsatCache[key] = true
+		if s.useCores {
+			s.recordCore(eff)
+		}
 		return false
 	}
 	s.Unknown++
@@ -632,6 +683,44 @@ func (s *Solver) Check(lits []*Sym) bool {
 		s.start()
 	}
 	panic(solverFailure{"solver answered: " + line})
+}
+
+// recordCore asks for the assumptions the refutation used and remembers them.
+func (s *Solver) recordCore(eff []*Sym) {
+	io.WriteString(s.in, "(get-unsat-assumptions)\n")
+	ans := s.readSexp()
+	if strings.Contains(ans, "(error") {
+		s.useCores = false // not supported by this back end: fall back to exact-match caching
+		return
+	}
+	byRef := make(map[string]int, len(eff))
+	for _, l := range eff {
+		byRef["p"+strconv.Itoa(l.id)] = l.id
+	}
+	var core []int
+	max := -1
+	for _, tok := range strings.Fields(strings.NewReplacer("(", " ", ")", " ").Replace(ans)) {
+		id, ok := byRef[tok]
+		if !ok {
+			return // a form this parser does not know (e.g. a negation written out): do not record
+		}
+		core = append(core, id)
+		if id > max {
+			max = id
+		}
+	}
+	if os.Getenv("VERIF_COREDBG") != "" {
+		fmt.Fprintf(os.Stderr, "core %d of %d: %s\n", len(core), len(eff), ans)
+	}
+	if len(core) == 0 || len(core) == len(eff) {
+		return
+	}
+	if s.cores == nil {
+		s.cores = map[int][][]int{}
+	}
+	if len(s.cores[max]) < 64 {
+		s.cores[max] = append(s.cores[max], core)
+	}
 }
 
 func (s *Solver) readLine() string {
